@@ -220,7 +220,7 @@ def w_tilde_curvature_preload_imaging_from(
             if ip0 == ip1:
                 noise_value /= 2.0
 
-            if noise_value > 0.0:
+            if noise_value != 0.0:
                 curvature_preload_tmp[ip0, kernel_index] = noise_value
                 curvature_indexes_tmp[ip0, kernel_index] = ip1
                 kernel_index += 1
